@@ -1,11 +1,11 @@
 package main
 
 import (
-	"runtime"
 	"encoding/json"
 	"flag"
 	"fmt"
 	"os"
+	"runtime"
 	"sort"
 	"strings"
 	"time"
@@ -232,6 +232,11 @@ func specs() map[string]propSpec {
 		}
 		return msgs
 	}, rule: "random multigraphs x sizes x spacings x scale 2^k, k in -3..6"}
+	o = full
+	o.P4 = []string{"sink", "valign", "packright", "bk", "ns"}
+	o.MaxN = 7
+	m["C18"] = propSpec{opts: o, gen: baseGen(o), oracle: oracleC18, rule: "scripted history of 6 Layout calls around a random case: with monitor, panicking with monitor (empty input / wrong arity), without, with, panicking without, without; each monitor stamps events with the running call"}
+	m["C15"] = propSpec{opts: o, gen: baseGen(o), oracle: oracleC15, rule: "8 goroutines x 3 calls on independent variants of a random case, compared with the same calls run alone; binary built with -race"}
 	return m
 }
 
@@ -367,7 +372,12 @@ func shrinkCase(c Case, sp propSpec, seed uint64) (Case, []string) {
 		return false
 	}
 	for _, f := range []func(d *Case) bool{
-		func(d *Case) bool { d.SizeMode = "none"; d.Sizes = nil; d.FixedW, d.FixedH = 0, 0; return has(sp.opts.SizeModes, "none") },
+		func(d *Case) bool {
+			d.SizeMode = "none"
+			d.Sizes = nil
+			d.FixedW, d.FixedH = 0, 0
+			return has(sp.opts.SizeModes, "none")
+		},
 		func(d *Case) bool { d.VirtualOut = false; return len(sp.opts.VirtualOut) > 1 },
 		func(d *Case) bool { d.P5 = "straight"; return has(sp.opts.P5, "straight") },
 		func(d *Case) bool { d.P4 = "valign"; return has(sp.opts.P4, "valign") },
